@@ -227,17 +227,207 @@ theorem ruleDefault_of_hom (l : Lit) (h : l.homogeneous = true) : ruleDefault l 
 theorem dynDefault_of_hom (l : Lit) (h : l.homogeneous = true) : dynDefault l = pyDefault l := by
   simp [dynDefault, h, pyDefault]
 
-theorem hom_of_litRepr (l : Lit) (dt : DType) (h : litRepresentable l dt = true) : l.homogeneous = true := by
-  unfold litRepresentable at h; rw [Bool.and_eq_true] at h; exact h.1
+/-! ### the three default dtypes coincide on every literal (since fa769b8) -/
+
+theorem Kind.beq_refl (k : Kind) : k.beq k = true := by cases k <;> rfl
+
+theorem hom_of_all_kind (l : Lit) (k : Kind) (h : ∀ e ∈ l.elems, e.kind = k) : l.homogeneous = true := by
+  unfold Lit.homogeneous
+  rw [List.all_eq_true]
+  intro e he
+  rw [h e he, h l.head (head_mem_elems l)]
+  exact Kind.beq_refl k
+
+theorem not_allI_of_not_hom (l : Lit) (h : l.homogeneous = false) : l.elems.all Scalar.isI = false := by
+  cases ha : l.elems.all Scalar.isI with
+  | false => rfl
+  | true =>
+    rw [List.all_eq_true] at ha
+    have := hom_of_all_kind l .i (fun e he => by have := ha e he; cases e <;> simp_all [Scalar.isI, Scalar.kind])
+    rw [h] at this; cases this
+
+theorem not_allF_of_not_hom (l : Lit) (h : l.homogeneous = false) : l.elems.all Scalar.isF = false := by
+  cases ha : l.elems.all Scalar.isF with
+  | false => rfl
+  | true =>
+    rw [List.all_eq_true] at ha
+    have := hom_of_all_kind l .f (fun e he => by have := ha e he; cases e <;> simp_all [Scalar.isF, Scalar.kind])
+    rw [h] at this; cases this
+
+/-- Eager mode's default dtype is `ir.tensor`'s (the converter's) on every literal. -/
+theorem dynDefault_eq (l : Lit) : dynDefault l = irDefault l := by
+  unfold dynDefault
+  cases hh : l.homogeneous with
+  | true => simp only [if_true]; exact (irDefault_of_hom l hh).symm
+  | false =>
+    simp only [Bool.false_eq_true, if_false]
+    unfold irDefault numpyInfer
+    simp only [not_allI_of_not_hom l hh, not_allF_of_not_hom l hh, Bool.false_eq_true, if_false]
+
+theorem sameType_elems (l : Lit) (hs : sameTypeAsHead l = true) (P : Scalar → Bool)
+    (hhead : P l.head = true)
+    (hrest : ∀ x xs, l = .l x xs → ∀ e ∈ xs, P e = true) : ∀ e ∈ l.elems, P e = true := by
+  cases l with
+  | s x => intro e he; simp only [Lit.elems, List.mem_singleton] at he; subst he; exact hhead
+  | l x xs =>
+    intro e he
+    simp only [Lit.elems, List.mem_cons] at he
+    rcases he with rfl | he
+    · exact hhead
+    · exact hrest x xs rfl e he
+
+/-- The builder's default dtype is `ir.tensor`'s on every literal. -/
+theorem builderDefault_eq (l : Lit) : builderDefault l = irDefault l := by
+  unfold builderDefault builderKeyDType
+  cases hs : sameTypeAsHead l with
+  | false => rfl
+  | true =>
+    simp only [if_true]
+    cases hk : l.head.kind with
+    | b => rfl
+    | i =>
+      simp only [Option.getD_some]
+      have hhead : l.head.isI = true := by cases hx : l.head <;> simp_all [Scalar.kind, Scalar.isI]
+      have hel : ∀ e ∈ l.elems, (e.isI || e.isB) = true :=
+        sameType_elems l hs _ (by simp [hhead]) (fun x xs hl e he => by
+          subst hl
+          simp only [Lit.head] at hk
+          simp only [sameTypeAsHead, hk, List.all_eq_true] at hs
+          exact hs e he)
+      unfold irDefault
+      by_cases h1 : l.elems.all Scalar.isI = true
+      · simp [h1]
+      · have h2 : l.elems.all Scalar.isF = false :=
+          not_all_of_kind l _ (by cases hx : l.head <;> simp_all [Scalar.kind, Scalar.isF, Scalar.isI])
+        have h3 : l.elems.all Scalar.isB = false :=
+          not_all_of_kind l _ (by cases hx : l.head <;> simp_all [Scalar.kind, Scalar.isB, Scalar.isI])
+        have h4 : l.elems.all (fun e => !e.isF) = true := by
+          rw [List.all_eq_true]
+          intro e he
+          have := hel e he
+          cases e <;> simp_all [Scalar.isI, Scalar.isB, Scalar.isF]
+        simp [h1, h2, h3, h4]
+    | f =>
+      simp only [Option.getD_some]
+      have hhead : l.head.isF = true := by cases hx : l.head <;> simp_all [Scalar.kind, Scalar.isF]
+      have hel : ∀ e ∈ l.elems, e.isF = true :=
+        sameType_elems l hs _ hhead (fun x xs hl e he => by
+          subst hl
+          simp only [Lit.head] at hk
+          simp only [sameTypeAsHead, hk, List.all_eq_true] at hs
+          exact hs e he)
+      have h1 : l.elems.all Scalar.isI = false :=
+        not_all_of_kind l _ (by cases hx : l.head <;> simp_all [Scalar.kind, Scalar.isI, Scalar.isF])
+      have h2 : l.elems.all Scalar.isF = true := List.all_eq_true.mpr hel
+      unfold irDefault
+      simp [h1, h2]
+
+/-! ### values: default dtype, then CastLike — for every literal, lists mixing Python types included -/
+
+/-- The default dtype `d0` a list gets can hold element `e`: it is the dtype of `e`'s own Python type, or INT64 for a
+bool (bool/int mix), or DOUBLE (any mix with a float). -/
+def Adm (e : Scalar) (d0 : DType) : Prop :=
+  d0 = kindDType e.kind ∨ (d0 = .int64 ∧ e.kind = .b) ∨ d0 = .double
+
+theorem adm_irDefault (l : Lit) : ∀ e ∈ l.elems, Adm e (irDefault l) := by
+  intro e he
+  unfold irDefault
+  dsimp only
+  by_cases h1 : l.elems.all Scalar.isI = true
+  · rw [if_pos h1]
+    left
+    have := List.all_eq_true.mp h1 e he
+    cases e <;> simp [Scalar.isI] at this <;> rfl
+  · rw [if_neg h1]
+    by_cases h2 : l.elems.all Scalar.isF = true
+    · rw [if_pos h2]
+      left
+      have := List.all_eq_true.mp h2 e he
+      cases e <;> simp [Scalar.isF] at this <;> rfl
+    · rw [if_neg h2]
+      by_cases h3 : l.elems.all Scalar.isB = true
+      · rw [if_pos h3]
+        left
+        have := List.all_eq_true.mp h3 e he
+        cases e <;> simp [Scalar.isB] at this <;> rfl
+      · rw [if_neg h3]
+        by_cases h4 : l.elems.all (fun e => !e.isF) = true
+        · rw [if_pos h4]
+          have := List.all_eq_true.mp h4 e he
+          cases e with
+          | b v => right; left; exact ⟨rfl, rfl⟩
+          | i v => left; rfl
+          | f s n d => simp [Scalar.isF] at this
+        · rw [if_neg h4]; right; right; rfl
+
+theorem inRange_boolInt (dt : DType) (hc : dt.cls = .int) (v : Bool) : dt.inRange (boolInt v) = true := by
+  cases dt <;> simp [DType.cls] at hc <;> cases v <;> decide
+
+theorem exactBound_pos (dt : DType) (hc : dt.cls = .flt) : 1 ≤ dt.exactBound := by
+  cases dt <;> simp [DType.cls] at hc <;> decide
+
+/-- Default-dtype constant followed by `CastLike`, for any admissible default dtype. -/
+theorem static_of_repr_gen (e : Scalar) (d0 dt : DType) (ha : Adm e d0) (h : representable e dt = true)
+    (hv : viaOk d0 e = true) :
+    ∃ v0, npCast e d0 = .ok v0 ∧ onnxCast d0 dt v0 = specCast e dt := by
+  rcases ha with rfl | ⟨rfl, hk⟩ | rfl
+  · exact static_of_repr e dt h
+  · -- a bool materialised as INT64
+    cases e with
+    | b v =>
+      refine ⟨.i (boolInt v), by simp [npCast, DType.cls], ?_⟩
+      cases hc : dt.cls
+      · have := exactBound_pos dt hc
+        cases v <;> simp [onnxCast, specCast, hc, boolInt, boolNat] <;> omega
+      · simp [onnxCast, specCast, hc, wrap_of_inRange dt _ (inRange_boolInt dt hc v)]
+      · cases v <;> simp [onnxCast, specCast, hc, boolInt]
+    | i v => simp [Scalar.kind] at hk
+    | f s n d => simp [Scalar.kind] at hk
+  · -- anything materialised as DOUBLE
+    cases e with
+    | b v =>
+      refine ⟨.f false (boolNat v) 1 false, by simp [npCast, DType.cls], ?_⟩
+      cases hc : dt.cls
+      · simp [onnxCast, specCast, hc, DType.beq, DType.code]
+      · have := inRange_boolInt dt hc v
+        cases v <;> simp_all [onnxCast, specCast, hc, DType.beq, DType.code, signed, boolNat, boolInt]
+      · cases v <;> simp [onnxCast, specCast, hc, DType.beq, DType.code, boolNat]
+    | i v =>
+      have hb : v.natAbs ≤ 9007199254740992 := by simpa [viaOk, DType.beq, DType.code] using hv
+      have hs : signed (decide (v < 0)) v.natAbs = v := by
+        simp only [signed]; by_cases h0 : v < 0 <;> simp [h0] <;> omega
+      refine ⟨.f (decide (v < 0)) v.natAbs 1 false, by simp [npCast, DType.cls, DType.exactBound, hb], ?_⟩
+      cases hc : dt.cls
+      · simp [onnxCast, specCast, hc, DType.beq, DType.code]
+      · have hr : dt.inRange v = true := by simp_all [representable]
+        simp [onnxCast, specCast, hc, DType.beq, DType.code, hs, hr]
+      · by_cases h0 : v = 0
+        · simp [onnxCast, specCast, hc, DType.beq, DType.code, h0]
+        · have : v.natAbs ≠ 0 := by omega
+          have e1 : (v != 0) = true := bne_iff_ne.mpr h0
+          have e2 : (v.natAbs != 0) = true := bne_iff_ne.mpr this
+          simp [onnxCast, specCast, hc, DType.beq, DType.code, e1, e2]
+    | f s n d =>
+      refine ⟨.f s n d false, by simp [npCast, DType.cls], ?_⟩
+      cases hc : dt.cls
+      · simp [onnxCast, specCast, hc, DType.beq, DType.code]
+      · have hr : dt.inRange (signed s (n / d)) = true := by simp_all [representable]
+        simp [onnxCast, specCast, hc, DType.beq, DType.code, hr]
+      · simp [onnxCast, specCast, hc, DType.beq, DType.code]
+
+theorem litRepr_elems (l : Lit) (dt : DType) (h : litRepresentable l dt = true) :
+    ∀ e ∈ l.elems, representable e dt = true ∧ viaOk (irDefault l) e = true := by
+  unfold litRepresentable at h
+  rw [List.all_eq_true] at h
+  intro e he
+  simpa [Bool.and_eq_true] using h e he
 
 /-- `np.array(literal, dtype)` yields the rule's tensor on representable literals. -/
 theorem npConst_of_repr (l : Lit) (dt : DType) (h : litRepresentable l dt = true) :
     npConst l dt = .ok (.const dt l.isList (l.elems.map (fun e => specCast e dt))) := by
-  unfold litRepresentable at h
-  rw [Bool.and_eq_true, List.all_eq_true] at h
   unfold npConst
   rw [mapE_ok_map (fun e => npCast e dt) (fun e => specCast e dt) l.elems
-    (fun e he => npCast_of_repr e dt (h.2 e he))]
+    (fun e he => npCast_of_repr e dt (litRepr_elems l dt h e he).1)]
 
 /-- value of `npCast e d0` when it succeeds (proof device). -/
 def npVal (d0 : DType) (e : Scalar) : SVal :=
@@ -247,19 +437,15 @@ def npVal (d0 : DType) (e : Scalar) : SVal :=
 
 /-- Default-dtype constant followed by `CastLike` to `dt` yields the rule's tensor. -/
 theorem castLike_of_repr (l : Lit) (dt : DType) (h : litRepresentable l dt = true) :
-    ∃ vs, mapE (fun e => npCast e (pyDefault l)) l.elems = .ok vs ∧
-      vs.map (onnxCast (pyDefault l) dt) = l.elems.map (fun e => specCast e dt) := by
-  unfold litRepresentable at h
-  rw [Bool.and_eq_true, List.all_eq_true] at h
-  have hk := hom_kind l h.1
-  have hstat : ∀ e ∈ l.elems, npCast e (pyDefault l) = .ok (npVal (pyDefault l) e) ∧
-      onnxCast (pyDefault l) dt (npVal (pyDefault l) e) = specCast e dt := by
+    ∃ vs, mapE (fun e => npCast e (irDefault l)) l.elems = .ok vs ∧
+      vs.map (onnxCast (irDefault l) dt) = l.elems.map (fun e => specCast e dt) := by
+  have hstat : ∀ e ∈ l.elems, npCast e (irDefault l) = .ok (npVal (irDefault l) e) ∧
+      onnxCast (irDefault l) dt (npVal (irDefault l) e) = specCast e dt := by
     intro e he
-    obtain ⟨v0, hv0, hc⟩ := static_of_repr e dt (h.2 e he)
-    have hd : pyDefault l = kindDType e.kind := by unfold pyDefault; rw [hk e he]
-    rw [hd]
-    refine ⟨by simp [npVal, hv0], by simp [npVal, hv0, hc]⟩
-  refine ⟨l.elems.map (npVal (pyDefault l)), mapE_ok_map _ _ _ (fun e he => (hstat e he).1), ?_⟩
+    obtain ⟨hr, hv⟩ := litRepr_elems l dt h e he
+    obtain ⟨v0, hv0, hc⟩ := static_of_repr_gen e (irDefault l) dt (adm_irDefault l e he) hr hv
+    exact ⟨by simp [npVal, hv0], by simp [npVal, hv0, hc]⟩
+  refine ⟨l.elems.map (npVal (irDefault l)), mapE_ok_map _ _ _ (fun e he => (hstat e he).1), ?_⟩
   rw [List.map_map]
   apply List.map_congr_left
   intro e he
@@ -267,41 +453,33 @@ theorem castLike_of_repr (l : Lit) (dt : DType) (h : litRepresentable l dt = tru
 
 theorem staticConst_some_of_repr (l : Lit) (dt : DType) (h : litRepresentable l dt = true) :
     staticConst l (some dt) = .ok (.const dt l.isList (l.elems.map (fun e => specCast e dt))) := by
-  have hh : l.homogeneous = true := by
-    unfold litRepresentable at h; rw [Bool.and_eq_true] at h; exact h.1
   obtain ⟨vs, hvs, hmap⟩ := castLike_of_repr l dt h
   unfold staticConst
-  simp only [irDefault_of_hom l hh, hvs, hmap]
+  simp only [hvs, hmap]
 
-theorem staticConst_none_of_repr (l : Lit) (h : litRepresentable l (pyDefault l) = true) :
-    staticConst l none = .ok (.const (pyDefault l) l.isList (l.elems.map (fun e => specCast e (pyDefault l)))) := by
-  have hh : l.homogeneous = true := by
-    unfold litRepresentable at h; rw [Bool.and_eq_true] at h; exact h.1
-  have := npConst_of_repr l (pyDefault l) h
+theorem staticConst_none_of_repr (l : Lit) (h : litRepresentable l (irDefault l) = true) :
+    staticConst l none = .ok (.const (irDefault l) l.isList (l.elems.map (fun e => specCast e (irDefault l)))) := by
+  have := npConst_of_repr l (irDefault l) h
   unfold npConst at this
   unfold staticConst
-  simp only [irDefault_of_hom l hh]
-  cases hm : mapE (fun e => npCast e (pyDefault l)) l.elems with
+  dsimp only
+  cases hm : mapE (fun e => npCast e (irDefault l)) l.elems with
   | error e => rw [hm] at this; cases this
   | ok vs => rw [hm] at this; simpa using this
 
 theorem builderConst_of_repr (l : Lit) (dt : DType) (h : litRepresentable l dt = true) :
     builderConst l (some dt) = .ok (.const dt l.isList (l.elems.map (fun e => specCast e dt))) := by
-  have hh : l.homogeneous = true := by
-    unfold litRepresentable at h; rw [Bool.and_eq_true] at h; exact h.1
-  simp [builderConst, accepts_of_hom l hh, npConst_of_repr l dt h]
+  simp [builderConst, builderAccepts, npConst_of_repr l dt h]
 
-theorem builderConst_none_of_repr (l : Lit) (h : litRepresentable l (pyDefault l) = true) :
-    builderConst l none = .ok (.const (pyDefault l) l.isList (l.elems.map (fun e => specCast e (pyDefault l)))) := by
-  have hh := hom_of_litRepr l _ h
-  simp [builderConst, builderAccepts, builderDefault_of_hom l hh, npConst_of_repr l _ h]
+theorem builderConst_none_of_repr (l : Lit) (h : litRepresentable l (irDefault l) = true) :
+    builderConst l none = .ok (.const (irDefault l) l.isList (l.elems.map (fun e => specCast e (irDefault l)))) := by
+  simp [builderConst, builderAccepts, builderDefault_eq, npConst_of_repr l _ h]
 
 theorem builderCastLike_of_repr (l : Lit) (dt : DType) (h : litRepresentable l dt = true) :
     builderCastLike l dt = .ok (.const dt l.isList (l.elems.map (fun e => specCast e dt))) := by
-  have hh := hom_of_litRepr l _ h
   obtain ⟨vs, hvs, hmap⟩ := castLike_of_repr l dt h
-  have hb : builderConst l none = .ok (.const (pyDefault l) l.isList vs) := by
-    simp [builderConst, builderAccepts, builderDefault_of_hom l hh, npConst, hvs]
+  have hb : builderConst l none = .ok (.const (irDefault l) l.isList vs) := by
+    simp [builderConst, builderAccepts, builderDefault_eq, npConst, hvs]
   unfold builderCastLike
   rw [hb]
   simp only [hmap]
@@ -310,7 +488,7 @@ theorem builderCastLike_of_repr (l : Lit) (dt : DType) (h : litRepresentable l d
 section
 variable {κ : Type} [DecidableEq κ]
 
-/-- The literal at this position (if it is one) is homogeneous and representable in the rule's dtype. -/
+/-- The literal at this position (if it is one) is representable in the rule's dtype. -/
 def ReprAt (sa : List (Slot κ × Arg)) (p : Slot κ × Arg) : Prop :=
   ∀ l, p.2 = .lit l → litRepresentable l (ruleDType sa p.1 l) = true
 
@@ -322,9 +500,8 @@ theorem emitStatic_eq (sa : List (Slot κ × Arg)) (hwt : WTsa sa) (p : Slot κ 
   | tensor dt k => rfl
   | lit l =>
     have hr := hr l rfl
-    have hh := hom_of_litRepr l _ hr
     have ht := target_first_last sa hwt s
-    simp only [emitStatic, emitExpected, ruleDType, ruleDefault_of_hom l hh] at *
+    simp only [emitStatic, emitExpected, ruleDType, ruleDefault] at *
     rw [← ht]
     cases hf : targetFirst sa s with
     | none =>
@@ -342,15 +519,14 @@ theorem emitDynamic_eq (sa : List (Slot κ × Arg)) (hwt : WTsa sa) (p : Slot κ
   | tensor dt k => rfl
   | lit l =>
     have hr := hr l rfl
-    have hh := hom_of_litRepr l _ hr
     have ht := target_first_last sa hwt s
-    simp only [emitDynamic, emitExpected, ruleDType, ruleDefault_of_hom l hh, dynDefault_of_hom l hh] at *
+    simp only [emitDynamic, emitExpected, ruleDType, ruleDefault, dynDefault_eq] at *
     cases hl : targetLast sa s with
     | none =>
       rw [hl] at ht
       simp only [Option.map_none, Option.map_eq_none_iff] at ht
       rw [ht] at hr ⊢
-      simpa using npConst_of_repr l (pyDefault l) hr
+      simpa using npConst_of_repr l (irDefault l) hr
     | some r =>
       rw [hl] at ht
       obtain ⟨dt, k⟩ := r
@@ -366,8 +542,7 @@ theorem emitBuilder_eq (sa : List (Slot κ × Arg)) (p : Slot κ × Arg) (hr : R
   | tensor dt k => rfl
   | lit l =>
     have hr := hr l rfl
-    have hh := hom_of_litRepr l _ hr
-    simp only [emitBuilder, emitExpected, ruleDType, ruleDefault_of_hom l hh] at *
+    simp only [emitBuilder, emitExpected, ruleDType, ruleDefault] at *
     cases hf : targetFirst sa s with
     | none =>
       rw [hf] at hr
@@ -902,101 +1077,6 @@ theorem runCalls_spec : ∀ (calls : List (List (Formal κ) × List Arg)) (c : C
 
 end
 
-
-/-! ### the three default dtypes coincide on every literal (since fa769b8) -/
-
-theorem Kind.beq_refl (k : Kind) : k.beq k = true := by cases k <;> rfl
-
-theorem hom_of_all_kind (l : Lit) (k : Kind) (h : ∀ e ∈ l.elems, e.kind = k) : l.homogeneous = true := by
-  unfold Lit.homogeneous
-  rw [List.all_eq_true]
-  intro e he
-  rw [h e he, h l.head (head_mem_elems l)]
-  exact Kind.beq_refl k
-
-theorem not_allI_of_not_hom (l : Lit) (h : l.homogeneous = false) : l.elems.all Scalar.isI = false := by
-  cases ha : l.elems.all Scalar.isI with
-  | false => rfl
-  | true =>
-    rw [List.all_eq_true] at ha
-    have := hom_of_all_kind l .i (fun e he => by have := ha e he; cases e <;> simp_all [Scalar.isI, Scalar.kind])
-    rw [h] at this; cases this
-
-theorem not_allF_of_not_hom (l : Lit) (h : l.homogeneous = false) : l.elems.all Scalar.isF = false := by
-  cases ha : l.elems.all Scalar.isF with
-  | false => rfl
-  | true =>
-    rw [List.all_eq_true] at ha
-    have := hom_of_all_kind l .f (fun e he => by have := ha e he; cases e <;> simp_all [Scalar.isF, Scalar.kind])
-    rw [h] at this; cases this
-
-/-- Eager mode's default dtype is `ir.tensor`'s (the converter's) on every literal. -/
-theorem dynDefault_eq (l : Lit) : dynDefault l = irDefault l := by
-  unfold dynDefault
-  cases hh : l.homogeneous with
-  | true => simp only [if_true]; exact (irDefault_of_hom l hh).symm
-  | false =>
-    simp only [Bool.false_eq_true, if_false]
-    unfold irDefault numpyInfer
-    simp only [not_allI_of_not_hom l hh, not_allF_of_not_hom l hh, Bool.false_eq_true, if_false]
-
-theorem sameType_elems (l : Lit) (hs : sameTypeAsHead l = true) (P : Scalar → Bool)
-    (hhead : P l.head = true)
-    (hrest : ∀ x xs, l = .l x xs → ∀ e ∈ xs, P e = true) : ∀ e ∈ l.elems, P e = true := by
-  cases l with
-  | s x => intro e he; simp only [Lit.elems, List.mem_singleton] at he; subst he; exact hhead
-  | l x xs =>
-    intro e he
-    simp only [Lit.elems, List.mem_cons] at he
-    rcases he with rfl | he
-    · exact hhead
-    · exact hrest x xs rfl e he
-
-/-- The builder's default dtype is `ir.tensor`'s on every literal. -/
-theorem builderDefault_eq (l : Lit) : builderDefault l = irDefault l := by
-  unfold builderDefault builderKeyDType
-  cases hs : sameTypeAsHead l with
-  | false => rfl
-  | true =>
-    simp only [if_true]
-    cases hk : l.head.kind with
-    | b => rfl
-    | i =>
-      simp only [Option.getD_some]
-      have hhead : l.head.isI = true := by cases hx : l.head <;> simp_all [Scalar.kind, Scalar.isI]
-      have hel : ∀ e ∈ l.elems, (e.isI || e.isB) = true :=
-        sameType_elems l hs _ (by simp [hhead]) (fun x xs hl e he => by
-          subst hl
-          simp only [Lit.head] at hk
-          simp only [sameTypeAsHead, hk, List.all_eq_true] at hs
-          exact hs e he)
-      unfold irDefault
-      by_cases h1 : l.elems.all Scalar.isI = true
-      · simp [h1]
-      · have h2 : l.elems.all Scalar.isF = false :=
-          not_all_of_kind l _ (by cases hx : l.head <;> simp_all [Scalar.kind, Scalar.isF, Scalar.isI])
-        have h3 : l.elems.all Scalar.isB = false :=
-          not_all_of_kind l _ (by cases hx : l.head <;> simp_all [Scalar.kind, Scalar.isB, Scalar.isI])
-        have h4 : l.elems.all (fun e => !e.isF) = true := by
-          rw [List.all_eq_true]
-          intro e he
-          have := hel e he
-          cases e <;> simp_all [Scalar.isI, Scalar.isB, Scalar.isF]
-        simp [h1, h2, h3, h4]
-    | f =>
-      simp only [Option.getD_some]
-      have hhead : l.head.isF = true := by cases hx : l.head <;> simp_all [Scalar.kind, Scalar.isF]
-      have hel : ∀ e ∈ l.elems, e.isF = true :=
-        sameType_elems l hs _ hhead (fun x xs hl e he => by
-          subst hl
-          simp only [Lit.head] at hk
-          simp only [sameTypeAsHead, hk, List.all_eq_true] at hs
-          exact hs e he)
-      have h1 : l.elems.all Scalar.isI = false :=
-        not_all_of_kind l _ (by cases hx : l.head <;> simp_all [Scalar.kind, Scalar.isI, Scalar.isF])
-      have h2 : l.elems.all Scalar.isF = true := List.all_eq_true.mpr hel
-      unfold irDefault
-      simp [h1, h2]
 
 /-! ### dtype-level agreement without representability -/
 
